@@ -17,6 +17,10 @@ META = {
 ASSUMPTIONS = [
     "the first value of a curve, hence every running maximum, is positive; later values may be zero or negative (depth may exceed 1); times are non-decreasing (equal consecutive timestamps are legitimate "
     "input, a drawdown may have zero duration)",
+    "reset() of the tear sheet generators (instrument: reset(start time); asset: reset(first balance of the new session)) "
+    "starts a new session: every figure reported afterwards is that of a freshly initialised generator fed the remainder only",
+    "the generators are serialisable: a serde_json store/restore at any point (spec action Persist, a stutter) must show the same "
+    "figures and leave every later figure unchanged",
     "reading the current drawdown (DrawdownGenerator::generate on the live object, any time, any number of times) must not "
     "change any later figure (ReadingIsPure); the tear sheets' own generate() folds into Max/Mean by design, so after a live "
     "tear-sheet read only the current drawdown / peak are still judged on that object",
@@ -40,8 +44,8 @@ def judge(ctx, results, scns, label):
             continue
         scn = scns[r["scn"]]
         ev = r.get("event", {})
-        desc = "curve (t,v) %s [unit %s ms, values x1e%s] in mode %s: at point #%d %s; shown before the point: %s [%s]" % (
-            ev.get("curve"), r.get("variant", {}).get("unit_ms"), r.get("variant", {}).get("e10"), r.get("mode"),
+        desc = "curve (t,v) %s [unit %s ms, values x1e%s; previous session before reset(): %s] in mode %s: at point #%d %s; shown before the point: %s [%s]" % (
+            ev.get("curve"), r.get("variant", {}).get("unit_ms"), r.get("variant", {}).get("e10"), r.get("variant", {}).get("prelude_pts") or "none", r.get("mode"),
             r["step"] + 1, r["error"], json.dumps(r["pre"]), label)
         ctx.violation(signature(r), desc, sc.replay_object(scn, r, ctx.seed, mode=r.get("mode")))
 
@@ -61,11 +65,12 @@ def validate(ctx, trace_path, label):
     lines = ctx.read_trace(trace_path)
     clean = ctx.path("clean_%s.ndjson" % label)
     found, keep = ctx.screen_anomalies(lines, clean, lambda l: ("the call panicked: %s" % l["post"]["panic"]) if "panic" in l.get("post", {}) else None)
-    for n, d, seg in found:
+    for n, d, _ in found:
+        seg = session_of(lines, n)
         ctx.violation("trace:%s:panic" % seg[0].get("mode"), "%s on curve %s [%s, line %d]" % (d, points_of(seg), label, n), trace_replay(seg))
     n, bad, _ = ctx.tlc_trace("Trace_" + MODULE, "Trace_Drawdown.cfg", clean)
     for b in bad:
-        seg = ctx.segment(keep, b)
+        seg = session_of(keep, b)
         line = keep[b - 1]
         desc = "curve (t,v) %s in mode %s: after the last point the implementation shows %s, which is not the reference decomposition of the curve [%s, line %d]" % (
             points_of(seg), line.get("mode"), json.dumps(line["post"]), label, b)
@@ -75,14 +80,27 @@ def validate(ctx, trace_path, label):
     return keep
 
 
+def session_of(lines, idx1):
+    """the lines up to 1-based idx1 that the same implementation object has seen: back to the last Reset that
+    created a FRESH generator (rs = 0); Resets with rs = 1 are calls of the public reset() on the live object"""
+    start = idx1 - 1
+    while start > 0 and not (lines[start].get("a") == "Reset" and lines[start].get("rs", 0) == 0):
+        start -= 1
+    return lines[start:idx1]
+
+
 def points_of(seg):
-    """[t, v] per point, [t, v, 1] when the current drawdown was read on the live generator after it"""
+    """[t, v] per point, [t, v, f] with f: 1 the current drawdown was read on the live generator after it,
+    2 the generators were stored and restored after it, 3 both; "reset" = the public reset() was called"""
     pts = []
-    for l in seg:
+    for n, l in enumerate(seg):
         if l.get("a") == "AddPoint":
             pts.append([l["t"], l["v"]])
-        elif l.get("a") == "Read" and pts:
-            pts[-1] = pts[-1][:2] + [1]
+        elif l.get("a") in ("Read", "Persist") and pts and isinstance(pts[-1], list):
+            f = (pts[-1][2] if len(pts[-1]) > 2 else 0) | (1 if l["a"] == "Read" else 2)
+            pts[-1] = pts[-1][:2] + [f]
+        elif l.get("a") == "Reset" and n > 0:
+            pts.append("reset")
     return pts
 
 
@@ -112,7 +130,7 @@ def selftest_trace(ctx, keep):
 def check(ctx):
     ctx.assumptions += ASSUMPTIONS
     ctx.build("c18")
-    ctx.tlc_actions(MODULE, "MC_Drawdown_small.cfg", ["AddPointAny", "ReadCurrentAny"])
+    ctx.tlc_actions(MODULE, "MC_Drawdown_small.cfg", ["AddPointAny", "ReadCurrentAny", "PersistAny", "ResetAny"])
     if ctx.quick:
         ctx.tlc_mc(MODULE, "MC_Drawdown.cfg", timeout=900, coverage=False)        # <= 4 points, irregular time steps
         ctx.tlc_mc(MODULE, "MC_Drawdown_long.cfg", timeout=900, coverage=False)   # all curves of <= 6 points over 1..4
@@ -137,7 +155,8 @@ def check(ctx):
         for k, v in info.get("arm_hits", {}).items():
             arms[k] = arms.get(k, 0) + v
     # (runs cut short by a violation exercise fewer arms: vacuity is only judged on a clean run)
-    if not ctx.violations and not all(arms.get(k) for k in ("point_completes_a_drawdown", "drawdown_in_progress", "max_tie", "live_read", "equal_consecutive_times", "decline_through_zero")):
+    if not ctx.violations and not all(arms.get(k) for k in ("point_completes_a_drawdown", "drawdown_in_progress", "max_tie", "live_read", "equal_consecutive_times", "decline_through_zero",
+                                                            "store_restore", "reset")):
         raise vlib.ToolError("vacuous run: an arm of the drawdown decomposition was never exercised: %s" % arms)
     # impl -> spec: seeded random curves recorded from the implementation, validated by TLC
     out = ctx.path("trace_random.ndjson")
